@@ -3,6 +3,7 @@ package c10
 import (
 	"bytes"
 	"fmt"
+	"io"
 	"math/rand"
 	"runtime"
 	"sync"
@@ -123,4 +124,89 @@ func concCase(k *engine.Case) {
 	if bad > 0 {
 		k.Fail("concurrent-roundtrip", "%d of %d goroutines working on their own buffers did not get back what they wrote; first: %s", bad, workers, first)
 	}
+}
+
+// bigStringCase: length-prefixed strings far beyond the usual sizes (around 1 MiB, 2 MiB,
+// 16 MiB): written once, read back by the buffer reader and by the stream reader over a
+// fragmenting source; both must return the string (and a limited read with a limit at or above
+// the length too).
+func bigStringCase(k *engine.Case) {
+	r := k.R
+	base := []int{1 << 20, 1<<20 + 1, 1<<20 - 1, 2 << 20, 3<<20 + 5, 1 << 24}[r.Intn(6)]
+	n := base + []int{0, 0, 1, 7}[r.Intn(4)]
+	body := make([]byte, n)
+	r.Read(body)
+	want := string(body)
+	k.Logf("one string of %d bytes, then the byte 0x7f", n)
+	k.Nontrivial()
+	markDistinct(k, []byte(fmt.Sprintf("bigstring-%d-%d", n, r.Int63())))
+	b := bytex.NewBufferX()
+	b.WriteString(want)
+	b.WriteU8(0x7f)
+	data := append([]byte(nil), b.Bytes()...)
+	if len(data) != 4+n+1 {
+		k.Fail("roundtrip-mismatch", "WriteString of %d bytes followed by WriteU8 produced %d bytes, expected %d", n, len(data), 4+n+1)
+		return
+	}
+	k.Evals(1)
+	got, err := b.ReadString()
+	if err != nil || got != want {
+		k.Fail("roundtrip-mismatch", "BufferX.ReadString of a %d-byte string returned %d bytes, err=%v", n, len(got), err)
+		return
+	}
+	if v, err := b.ReadU8(); err != nil || v != 0x7f || b.Len() != 0 {
+		k.Fail("roundtrip-mismatch", "after the %d-byte string BufferX read the next byte as (%#x, %v), %d bytes left", n, v, err, b.Len())
+		return
+	}
+	for mode := 0; mode < 3; mode++ {
+		var src io.Reader = bytes.NewReader(data)
+		name := "whole"
+		switch mode {
+		case 1:
+			src, name = &fixedChunks{data: data, n: 4096}, "4 KiB at a time"
+		case 2:
+			src, name = &fixedChunks{data: data, n: 1 + r.Intn(100000)}, "odd chunks"
+		}
+		rx := bytex.NewReaderX(src)
+		k.Evals(1)
+		var s string
+		var err error
+		limited := r.Intn(2) == 0
+		if limited {
+			s, err = rx.ReadLimitString(uint32(n + r.Intn(3)))
+		} else {
+			s, err = rx.ReadString()
+		}
+		if err != nil || s != want {
+			k.Fail("stream-mismatch/big-string", "ReaderX (%s, limited read: %v) returned %d bytes, err=%v for a string of %d bytes that BufferX reads back", name, limited, len(s), err, n)
+			return
+		}
+		if v, err := rx.ReadByte(); err != nil || v != 0x7f {
+			k.Fail("stream-mismatch/big-string", "ReaderX (%s): the byte after the %d-byte string read as (%#x, %v)", name, n, v, err)
+			return
+		}
+	}
+	k.Count("big_strings", 1)
+}
+
+type fixedChunks struct {
+	data []byte
+	n    int
+	pos  int
+}
+
+func (f *fixedChunks) Read(p []byte) (int, error) {
+	if f.pos >= len(f.data) {
+		return 0, io.EOF
+	}
+	n := f.n
+	if n > len(p) {
+		n = len(p)
+	}
+	if n > len(f.data)-f.pos {
+		n = len(f.data) - f.pos
+	}
+	copy(p, f.data[f.pos:f.pos+n])
+	f.pos += n
+	return n, nil
 }
